@@ -520,6 +520,7 @@ CHECKS = {
             RS('xsurveyor'),
             T('MC_Surveyor', 'Surveyor_quick.cfg'),
             T('MC_Surveyor', 'Surveyor_full.cfg', tiers=('thorough',), timeout=2400),
+            T('MC_SurveyorLive', 'Surveyor_live.cfg', workers=8, tiers=('thorough',)),   # liveness under fairness: RecvReturns, SurveySent, CancelHappens, SurveysEnd
             C('surveyor', 'TestSurveyor', 'TraceSurveyor', n={'quick': 120, 'thorough': 1500}),
             C('surveyorscn', 'TestSurveyor', 'TraceSurveyor', file='surveyor', n={'quick': 150, 'thorough': 1500},
               scn=[('MC_SurvScn', {'quick': ['SurvScn_a5.cfg'], 'thorough': ['SurvScn_a.cfg', 'SurvScn_b.cfg']})]),
